@@ -57,6 +57,9 @@ type lazyPending struct {
 	key   string // spec key of the field this cell is ("pkg.Type.Field"), "" for roots/elements
 	prot  bool   // created inside a protected object
 	root  bool
+	only     []string // interface cell: restrict candidate dynamic types
+	elemOnly []string // slice cell: restriction for the elements
+	listOnly []string // *ast.BlockStmt cell: restriction for the statements of its List
 }
 
 type lazyIface struct {
@@ -321,6 +324,17 @@ func (i *interpreter) materialise(p *lazyPending, T types.Type) value {
 			nullable = false
 		}
 		cands := i.universeFor(T, p.depth)
+		if p.only != nil {
+			var keep []types.Type
+			for _, c := range i.implementers(T) {
+				for _, o := range p.only {
+					if c.String() == o {
+						keep = append(keep, c)
+					}
+				}
+			}
+			cands = keep
+		}
 		l := &lazyIface{path: p.path, depth: p.depth, static: T, cands: cands, mayNil: nullable, prot: p.prot}
 		if len(cands) == 0 {
 			if !nullable {
@@ -350,7 +364,7 @@ func (i *interpreter) materialise(p *lazyPending, T types.Type) value {
 		}
 		sl := make([]value, n)
 		for k := range sl {
-			sl[k] = &lazyPending{path: fmt.Sprintf("%s[%d]", p.path, k), depth: p.depth, key: p.key + "[]", prot: p.prot}
+			sl[k] = &lazyPending{path: fmt.Sprintf("%s[%d]", p.path, k), depth: p.depth, key: p.key + "[]", prot: p.prot, only: p.elemOnly}
 		}
 		if p.prot {
 			for k := range sl {
@@ -388,6 +402,72 @@ func (i *interpreter) materialise(p *lazyPending, T types.Type) value {
 
 // afterNewStruct applies type-specific invariants to a freshly created lazy struct.
 func (i *interpreter) afterNewStruct(T types.Type, cell *value, p *lazyPending) {
+	switch namedString(T) {
+	case "go/types.Signature":
+		// contract: a variadic signature has at least one parameter
+		st := (*cell).(structure)
+		sst := T.Underlying().(*types.Struct)
+		pi, vi := -1, -1
+		for f := 0; f < sst.NumFields(); f++ {
+			switch sst.Field(f).Name() {
+			case "params":
+				pi = f
+			case "variadic":
+				vi = f
+			}
+		}
+		if pi >= 0 && vi >= 0 {
+			params := i.load(sst.Field(pi).Type(), &st[pi])
+			n := 0
+			if pc, ok := params.(*value); ok && pc != nil {
+				tup := (*pc).(structure)
+				tst := sst.Field(pi).Type().Underlying().(*types.Pointer).Elem().Underlying().(*types.Struct)
+				for f := 0; f < tst.NumFields(); f++ {
+					if tst.Field(f).Name() == "vars" {
+						if vars, ok := i.load(tst.Field(f).Type(), &tup[f]).([]value); ok {
+							n = len(vars)
+						}
+					}
+				}
+			}
+			if n == 0 {
+				st[vi] = false
+			}
+		}
+	case "go/ast.BlockStmt":
+		if p.listOnly != nil {
+			st := (*cell).(structure)
+			sst := T.Underlying().(*types.Struct)
+			for f := 0; f < sst.NumFields(); f++ {
+				if sst.Field(f).Name() == "List" {
+					if pend, ok := st[f].(*lazyPending); ok {
+						pend.elemOnly = p.listOnly
+					}
+				}
+			}
+		}
+	case "go/ast.SwitchStmt", "go/ast.TypeSwitchStmt", "go/ast.SelectStmt":
+		// the grammar: the body of a switch holds case clauses, of a select comm clauses
+		clause := "*go/ast.CaseClause"
+		if namedString(T) == "go/ast.SelectStmt" {
+			clause = "*go/ast.CommClause"
+		}
+		st := (*cell).(structure)
+		sst := T.Underlying().(*types.Struct)
+		for f := 0; f < sst.NumFields(); f++ {
+			pend, ok := st[f].(*lazyPending)
+			if !ok {
+				continue
+			}
+			switch sst.Field(f).Name() {
+			case "Body":
+				pend.listOnly = []string{clause}
+			case "Assign":
+				// x := y.(type) or y.(type)
+				pend.only = []string{"*go/ast.AssignStmt", "*go/ast.ExprStmt"}
+			}
+		}
+	}
 	if namedString(T) == "go/types.Basic" {
 		// (kind, info, name) are tied together as in the table go/types.Typ
 		st := (*cell).(structure)
